@@ -1,14 +1,14 @@
 SPECIFICATION Spec
 CONSTANTS
-  Replicas = {a, b, c}
+  Replicas = {a, b}
   Writers = {a, b}
-  MaxC = 3
-  MaxSnap = 2
-  MaxBatch = 2
-  AllowDup = TRUE
+  MaxC = 5
+  MaxSnap = 3
+  MaxBatch = 3
+  AllowDup = FALSE
   AllowNoPath = TRUE
   AllowStale = TRUE
-  WholeOnly = FALSE
+  WholeOnly = TRUE
   Sizes = {1}
   FixCommonSnapshot = TRUE
 INVARIANT Inv
